@@ -24,7 +24,7 @@ LEVEL = {
     "C16": ("proof", "PARTIAL. Proved: C16_exception_passthrough, C16_value_passthrough. Name/doc/signature, argument forwarding for 9 signature shapes, exception identity, method kinds, NamedTuple / 7 dataclass option sets (fields, equality, repr, isinstance, immutability, pickling) are CPython object-model behaviour without decision logic: compared against undecorated twins (a test, labelled as such).", "DESIGN.md 7 C16"),
     "C17": ("proof", "PARTIAL. Theorems C17_field_order / C17_fresh_context_per_validation / C17_optional_none_skipped / C17_class_definition / C17_assignment_refuted (= known finding K2) + histories of constructions / model_validate / assignments, nested models, validation context= dicts, 456 class definitions against the model of the class-definition dtype cross-check; model_dump / iteration / repr compared by the harness only." + CORR, "DESIGN.md 7 C17"),
     "C18": ("proof", "Theorems C18_symbolic, C18_shape, C18_constant_axes_refused (operand dispatch: TypeError exactly for ConstantAxis / AnonymousAxis operands), C18_source_tables (whole Shape[...] incl. ConstantAxis / AnonymousAxis: accepted by parse_shape, every dimension means what its axis means): for every tree Python's operators can build (constants of either sign; a negative one prints as (0-n)) the printed string is accepted and evaluates to the tree's own arithmetic value (SymbolicProof.embed_correct + decimal round trip + C05). Correspondence: trees built by Python's evaluation of generated source; demanded size vs plain integer evaluation." + CORR, "DESIGN.md 7 C18"),
-    "C19": ("proof", "PARTIAL. Theorems C19_wrapper_transparent and C19_capture_equal (under the Section hypothesis capture_extensional about torch, named in the trusted base). torch.jit.trace / script / compile are runtime behaviour the model cannot exhibit: tested on 6 modules against undecorated twins (quick: eager, trace, script; thorough adds torch.compile).", "DESIGN.md 7 C19"),
+    "C19": ("proof", "PARTIAL. Theorems C19_wrapper_transparent and C19_capture_equal (under the Section hypothesis capture_extensional about torch, named in the trusted base). torch.jit.trace / script / compile are runtime behaviour the model cannot exhibit: tested on 9 modules (three kinds of scope provider among them) against undecorated twins (quick: eager, trace, script; thorough adds torch.compile); a scripted module that is its own provider without exporting get_dltype_scope is the listed known finding K3.", "DESIGN.md 7 C19"),
     "C20": ("proof", "Finite theorem C20_config over coq/gen/GenConfig.v, regenerated on every run from fresh interpreters with a masking import hook (8 masks), against the hand model of the if/elif chains; plus one accepted / one rejected checked call per available library.", "DESIGN.md 7 C20"),
 }
 TECH = {p: "Coq 8.16 proof about a hand-written executable model + extracted-model/implementation correspondence (differential execution)" for p in LEVEL}
@@ -63,7 +63,7 @@ def main() -> None:
         "engines": [{"name": "coq+correspondence", "path": "/verif/coq, /verif/ocaml, /verif/harness", "serves_properties": [c["property_id"] for c in checks], "kind_free_text": "Coq 8.16 model + theorems; model extracted to OCaml and run against the implementation on generated inputs"}],
         "checks": checks,
         "not_applicable": na,
-        "notes": "See DESIGN.md. 15 genuine defects were repaired by fix: commits in /repo (known_findings.json lists them as fixed); K1 and K2 are listed known findings. C16, C17, C19 are partial (DESIGN.md 7, 10).",
+        "notes": "See DESIGN.md. 15 genuine defects were repaired by fix: commits in /repo (known_findings.json lists them as fixed); K1, K2 and K3 are listed known findings. C16, C17, C19 are partial (DESIGN.md 7, 10).",
     }
     (V / "MANIFEST.json").write_text(json.dumps(m, indent=1) + "\n")
     print(f"{len(checks)} checks, {len(na)} not claimed")
